@@ -103,9 +103,9 @@ def observe_real(arg):
 
 
 FRAGS = {
-    "common": ["\n", "\n\n", "  ", "\t", "x = 1", "foo(bar, 2)", "é = 'ü'", "\"a\\nb\"", "0x1F", " ", "\r\n", "名前 = 3", "\x0c", "\x0b", " \r ", "\u2028", "\x85", "\x1c", "\u2029", "a\x0cb", "'s\u2028t'"],
+    "common": ["\n", "\n\n", "  ", "\t", "x = 1", "foo(bar, 2)", "é = 'ü'", "\"a\\nb\"", "0x1F", " ", "\r\n", "名前 = 3", "\x0c", "\x0b", " \r ", "\u2028", "\x85", "\x1c", "\u2029", "a\x0cb", "'s\u2028t'", "x = 1 + \\\r\n  2\r\n", "'a\\\r\nb'", "\\\r\n"],
     "Python": ["def f(a):\n    return a\n", "# comment\n", "'''doc\nstring'''\n", "\"\"\"multi\nline\n\"\"\"", "x = \\\n  2\n", "class K:\n\tpass\n", "lambda q: q", "if a:\n  b\nelse:\n  c\n"],
-    "brace": ["int f(int a) {\n  return a;\n}\n", "// line comment\n", "/* block\n comment */", "/** doc */\n", "if (a) {\n} else {\n}\n", "char *s = \"{\";", "'}'", "#include <x.h>\n", "a = b ? c : d;", "x => { return x; }\n",
+    "brace": ["int f(int a) {\n  return a;\n}\n", "// line comment\n", "/* block\n comment */", "/** doc */\n", "if (a) {\n} else {\n}\n", "char *s = \"{\";", "'}'", "#include <x.h>\n", "#define X(a) \\\r\n  (a)\r\n", "a = b ? c : d;", "x => { return x; }\n",
               "`tpl ${a}\nline`", "function g() {\n}\n", "class K {\n  m() {}\n}\n"],
 }
 
